@@ -156,6 +156,12 @@ func execVacuum(c proto.Case, o *proto.Out) []string {
 func genVacuum(r *prng.R, f proto.Flags, emit func(proto.Case)) {
 	emit(proto.Case{ID: "vacuum:during-pass", Ops: []string{"vcfg ttl=30 tick=10", "vadd k=A",
 		"vpass adv=31 add=B", "vpass adv=10", "vpass adv=30", "vpass adv=10"}})
+	// the registration lands inside a pass that itself EXPIRES a key (the pass trims the pending list after the
+	// registration appended to it): the trim must be relative to the live list, not to the pass's snapshot
+	emit(proto.Case{ID: "vacuum:during-expiring-pass", Ops: []string{"vcfg ttl=30 tick=10", "vadd k=A",
+		"vpass adv=31", "vpass adv=9 add=B", "vpass adv=20", "vpass adv=20 add=C", "vpass adv=40", "vpass adv=10"}})
+	emit(proto.Case{ID: "vacuum:during-expiring-pass-2", Ops: []string{"vcfg ttl=10 tick=10", "vadd k=A", "vadd k=B",
+		"vpass adv=10", "vpass adv=10 add=C", "vpass adv=10 add=D", "vpass adv=10 add=A", "vpass adv=20", "vpass adv=10"}})
 	emit(proto.Case{ID: "vacuum:plain", Ops: []string{"vcfg ttl=30 tick=10", "vadd k=A", "vpass adv=5", "vadd k=B",
 		"vpass adv=10", "vpass adv=20", "vpass adv=10"}})
 	n := 15 * f.Budget
@@ -181,6 +187,14 @@ func genVacuum(r *prng.R, f proto.Flags, emit func(proto.Case)) {
 				}
 				ops = append(ops, op)
 			}
+		}
+		if rr.Intn(2) == 0 {
+			// a registration, enough passes for it to expire, and another registration inside the expiring pass
+			ops = append(ops, "vadd k="+keys[rr.Intn(len(keys))])
+			for t := 0; t < ttl; t += tick {
+				ops = append(ops, fmt.Sprintf("vpass adv=%d", tick))
+			}
+			ops = append(ops, fmt.Sprintf("vpass adv=%d add=%s", 1+rr.Intn(tick), keys[rr.Intn(len(keys))]))
 		}
 		ops = append(ops, fmt.Sprintf("vpass adv=%d", ttl+tick), fmt.Sprintf("vpass adv=%d", tick))
 		emit(proto.Case{ID: fmt.Sprintf("vacuum:g%d", c), Ops: ops})
